@@ -83,9 +83,18 @@ func (p *EnumPlan) Master(c *Ctx, sum *EnumSummary) {
 		return
 	}
 	// determinism gate on the first case
-	r1, _ := json.Marshal(p.Eval(c, cases[0]))
-	r2, _ := json.Marshal(p.Eval(c, cases[0]))
-	if string(r1) != string(r2) {
+	// (signatures, not texts: which of several equivalent holds a message names may follow the iteration order
+	// of a Go map inside the server, which the runtime does not control)
+	gate := func(r EnumResult) string {
+		var sigs []string
+		for _, v := range r.Viol {
+			sigs = append(sigs, v.Sig)
+		}
+		sort.Strings(sigs)
+		return fmt.Sprintf("err=%q sigs=%v known=%d nt=%v sub=%d", r.Err, sigs, len(r.Known), r.Nontrivial, r.Sub)
+	}
+	r1, r2 := gate(p.Eval(c, cases[0])), gate(p.Eval(c, cases[0]))
+	if r1 != r2 {
 		sum.EngineErr = fmt.Sprintf("%s: two evaluations of case %s differ:\n%s\n%s", p.Name, cases[0].Name, r1, r2)
 		return
 	}
